@@ -120,6 +120,10 @@ def main():
     print("kept as", out)
     return 0
   finally:
+    import glob, time
+    for r in glob.glob("/var/tmp/vf-replays-*"):    # scratch witness dirs of runs older than an hour
+      if time.time() - os.path.getmtime(r) > 3600:
+        shutil.rmtree(r, ignore_errors=True)
     sh(["git", "-C", "/repo", "worktree", "remove", "--force", scratch])
     shutil.rmtree(scratch, ignore_errors=True)
 
